@@ -88,9 +88,10 @@ def case_lit(case):
         else:
             ex = "Crashed"
         runs.append("(mkRun %s %s %s)" % (tape_lit(r["tape"]), natlit(r["fuel"]), ex))
-    return Raw("(mkC8 %d %s %s %d %s %s %s %s %s)" % (
+    oracle_ok = not (case.get("oracle") or {}).get("violates", False)
+    return Raw("(mkC8 %d %s %s %d %s %s %s %s %s %s)" % (
         inp["nq"], coq(coq_circ(case["canon_in"])), gt, max(0, inp["W"]), coq(bool(inp["gate_lo"])),
-        coq(bool(inp["wire_lo"])), qlit(Fraction(inp["max_gamma"])), mb, lst(runs)))
+        coq(bool(inp["wire_lo"])), qlit(Fraction(inp["max_gamma"])), mb, lst(runs), coq(oracle_ok)))
 
 
 # ----------------------------------------------------------------------------------------
@@ -184,7 +185,7 @@ def brute_optimum(nq, gates, W, gate_lo, wire_lo, budget=3_000_000):
     return best[0], feasible[0], nodes[0]
 
 
-def judge(case):
+def judge(case, budget=3_000_000):
     inp = case["input"]
     runs = case["runs"]
     W = inp["W"]
@@ -196,12 +197,13 @@ def judge(case):
         return dict(violates=False, detail="input outside the property's domain (%s)" % [r["status"] for r in runs])
     gates = _gates_of(case)
     try:
-        opt, nfeas, nodes = brute_optimum(inp["nq"], gates, W, inp["gate_lo"], inp["wire_lo"])
+        opt, nfeas, nodes = brute_optimum(inp["nq"], gates, W, inp["gate_lo"], inp["wire_lo"], budget=budget)
     except RuntimeError:
-        return dict(violates=False, detail="brute-force budget exhausted; undecided")
+        return dict(violates=False, detail="brute-force budget exhausted; undecided", optimum=None, decided=False)
     ok_runs = [r for r in runs if r["status"] == "ok"]
     if opt is None:
-        return dict(violates=False, detail=f"no feasible assignment exists; statuses {[r['status'] for r in runs]} (feasibility errors belong to C07)")
+        return dict(violates=False, detail=f"no feasible assignment exists; statuses {[r['status'] for r in runs]} (feasibility errors belong to C07)",
+                    optimum=None, decided=True)
     opt_overhead = opt * opt
     unrestricted = inp["max_backjumps"] is None and Fraction(inp["max_gamma"]) >= opt
     problems = []
@@ -219,7 +221,7 @@ def judge(case):
               f"unrestricted={unrestricted}; " + ("; ".join(problems) if problems else
                                                  "recorded (overhead, minimum_reached) = %s consistent with the property"
                                                  % [(r.get("overhead"), r.get("minimum_reached")) for r in runs]))
-    return dict(violates=bool(problems), detail=detail)
+    return dict(violates=bool(problems), detail=detail, optimum=str(opt), decided=True, unrestricted=bool(unrestricted))
 
 
 def rerun(case):
@@ -246,20 +248,9 @@ WITNESS_CIRCUITS = [
 
 
 def _job(case):
-    """run the implementation and the brute-force oracle on one case (also executed in worker processes)"""
+    """run the implementation and the independent brute-force oracle on one case (also executed in worker processes)"""
     analyse(case)
-    inp = case["input"]
-    gates = _gates_of(case)
-    domain = (inp["max_gamma"] >= 1 and (inp["max_backjumps"] is None or inp["max_backjumps"] >= 0) and inp["W"] >= 1
-              and (inp["gate_lo"] or inp["wire_lo"]) and len(gates) <= 8)
-    opt = None
-    if domain:
-        try:
-            opt = brute_optimum(inp["nq"], gates, inp["W"], inp["gate_lo"], inp["wire_lo"], budget=400_000)[0]
-        except RuntimeError:
-            opt = None
-    case["oracle_in_domain"] = bool(domain)
-    case["oracle_opt"] = None if opt is None else str(opt)
+    case["oracle"] = judge(case, budget=400_000)
     return case
 
 
@@ -292,20 +283,21 @@ def generate(rng, tier, outdir):
             w.count(group + ".status", r["status"])
             if r["status"] == "ok":
                 w.count(group + ".minimum_reached", r["minimum_reached"])
-        # the independent oracle on every generated case (histogram only; verdicts come from run.py)
-        opt = case.pop("oracle_opt", None)
-        if case.pop("oracle_in_domain", False):
-            opt = None if opt is None else Fraction(opt)
-            if opt is not None:
-                below = Fraction(inp["max_gamma"]) < opt
-                w.count(group + ".max_gamma_vs_optimum", "below the optimum" if below else "at or above the optimum")
-                w.count(group + ".unrestricted", inp["max_backjumps"] is None and not below)
-                ok = [r for r in runs if r["status"] == "ok"]
-                w.count(group + ".returned", "optimum" if ok and all(Fraction(r["overhead"]) == opt * opt for r in ok) else
-                        ("above optimum" if ok else "no result"))
-                w.count(group + ".optimal_gamma", str(opt) if opt < 50 else ">=50")
-            else:
-                w.count(group + ".max_gamma_vs_optimum", "infeasible or undecided")
+        # the independent oracle ran on every generated case; a case it rejects is marked in the Coq literal (k_oracle = false),
+        # so it is reported as a disagreement even if model and implementation agree with each other
+        orc = case["oracle"]
+        w.count(group + ".oracle_verdict", "VIOLATES" if orc["violates"] else ("consistent" if orc.get("decided") else "outside domain / undecided"))
+        if orc.get("optimum") is not None:
+            opt = Fraction(orc["optimum"])
+            below = Fraction(inp["max_gamma"]) < opt
+            w.count(group + ".max_gamma_vs_optimum", "below the optimum" if below else "at or above the optimum")
+            w.count(group + ".unrestricted", bool(orc.get("unrestricted")))
+            ok = [r for r in runs if r["status"] == "ok"]
+            w.count(group + ".returned", "optimum" if ok and all(Fraction(r["overhead"]) == opt * opt for r in ok) else
+                    ("above optimum" if ok else "no result"))
+            w.count(group + ".optimal_gamma", str(opt) if opt < 50 else ">=50")
+        elif orc.get("decided") and "no feasible" in orc["detail"]:
+            w.count(group + ".max_gamma_vs_optimum", "no assignment meets the width limit")
         nt = any(r["status"] == "ok" and r["n_cuts"] > 0 for r in runs) if nontrivial is None else nontrivial
         w.add(group, "chk_c08", case_lit(case), case, nontrivial=nt)
         return case
